@@ -39,7 +39,8 @@ Inductive rkind := ConnOk | ConnFail | RepNormal | RepError.
    [f_recv]: that statement is the function's recv_stub call *)
 Record fault := { f_fn : fn; f_site : option nat; f_recv : bool; f_exc : exc }.
 
-Record req := { q_oneway : bool; q_callback : bool }.
+(* [q_stream]: the method returned an iterator, which is answered with the item-stream error reply *)
+Record req := { q_oneway : bool; q_callback : bool; q_stream : bool }.
 Inductive evkind := EConnect | ERequest (q : req).
 (* what a peer does next on connection [e_conn] and which exceptions that makes surface, in order *)
 Record event := { e_conn : nat; e_kind : evkind; e_script : list fault }.
@@ -267,8 +268,8 @@ Fixpoint hr_loop (q : req) (fs : list fault) : res * option rkind * list fault :
         | Caught ord (ASwallow | ABreak | AContinue) => hr_loop q fs'
         | Caught ord _ => (RNorm true, None, fs')
         end
-      else (RNorm true, if q_oneway q then None else Some RepNormal, fs)
-  | [] => (RNorm true, if q_oneway q then None else Some RepNormal, [])
+      else (RNorm true, if q_oneway q then None else Some (if q_stream q then RepError else RepNormal), fs)
+  | [] => (RNorm true, if q_oneway q then None else Some (if q_stream q then RepError else RepNormal), [])
   end.
 
 (* the user's disconnect hook, called at (f, KClientDisconnect 0): (exception leaving f's protection, rest) *)
